@@ -19,7 +19,7 @@ Notation nn := (nonnull o).
 
 Lemma op_max_pick a v : is_null o a = false -> is_null o v = false -> op_max o a v = pick_max o a v.
 Proof.
-  intros Ha Hv. unfold op_max, pick_max. rewrite (leb_spec o L) by auto.
+  intros Ha Hv. unfold op_max, pick_max. rewrite Ha, Hv. rewrite (leb_spec o L) by auto.
   destruct (ltb o a v); reflexivity.
 Qed.
 
@@ -112,6 +112,44 @@ Proof.
   - rewrite nanmax_one_pass.
     rewrite (map_ext _ (fun c => max_exec o (nn c))) by (intros c; apply nanmax_one_pass).
     rewrite max_of_maxima. now rewrite array_split_concat.
+Qed.
+(* ---- skipna = False: nulls are not skipped, and a null anywhere makes the maximum / minimum null (one pass; before /repo's
+   fix of NumbaReductionOps.max / min a NaN was dropped or restarted the scan, differently for different thread counts). ---- *)
+Lemma op_min_pick a v : is_null o a = false -> is_null o v = false -> op_min o a v = pick_min o a v.
+Proof.
+  intros Ha Hv. unfold op_min, pick_min. rewrite Ha, Hv. rewrite (leb_spec o L) by auto.
+  destruct (ltb o v a); reflexivity.
+Qed.
+
+Lemma fold_ext_null (want_max : bool) t : forall a, is_null o a = true ->
+  fold_left (if want_max then op_max o else op_min o) t a = a.
+Proof.
+  destruct want_max; (induction t as [|x t IH]; intros a Ha; [reflexivity|]; cbn [fold_left]; unfold op_max, op_min; rewrite Ha; apply IH; exact Ha).
+Qed.
+
+Lemma fold_ext_noskip (want_max : bool) t : forall a, is_null o a = false ->
+  fold_left (if want_max then op_max o else op_min o) t a
+  = if existsb (is_null o) t then null o else fold_left (if want_max then pick_max o else pick_min o) t a.
+Proof.
+  pose proof (fold_ext_null want_max) as Hnull.
+  destruct want_max;
+  (induction t as [|x t IH]; intros a Ha; [reflexivity|]; cbn [fold_left existsb];
+   destruct (is_null o x) eqn:Ex; cbn [orb];
+   [ assert (Hs : is_null o x = true) by exact Ex;
+     match goal with |- fold_left ?f t (?g a x) = _ => assert (Hx : g a x = x) by (unfold op_max, op_min; rewrite Ha, Ex; reflexivity) end;
+     rewrite Hx, Hnull by exact Ex; apply null_unique; exact Ex
+   | first [rewrite op_max_pick by auto | rewrite op_min_pick by auto]; apply IH;
+     unfold pick_max, pick_min; match goal with |- context [if ?b then _ else _] => destruct b end; assumption ]).
+Qed.
+
+Theorem noskip_ext_one_pass (want_max : bool) arr : arr <> [] ->
+  nb_reduce o (if want_max then op_max o else op_min o) arr false None
+  = if existsb (is_null o) arr then null o else if want_max then max_exec o arr else min_exec o arr.
+Proof.
+  intros Hne. destruct arr as [|x t]; [congruence|]. unfold nb_reduce. cbn [existsb].
+  destruct (is_null o x) eqn:Ex; cbn [orb]; [apply null_unique; exact Ex|].
+  rewrite (fold_ext_noskip want_max t x Ex). destruct (existsb (is_null o) t); [reflexivity|].
+  destruct want_max; reflexivity.
 Qed.
 End NMax.
 
